@@ -5,6 +5,8 @@ verus! {
 //@include shims/core.rs
 //@include shims/alloc_free.rs
 //@include shims/cursor.rs
+//@include shims/asref.rs
+//@include shims/codecs.rs
 //@include spec/hash.rs
 //@enum BSVErrors @ src/errors/mod.rs
 //@enum OpCodes @ src/script/op_codes.rs clone copy partialeq eq
@@ -15,6 +17,7 @@ verus! {
 //@include spec/script_tok.rs
 impl Script {
 //@fn Script::from_bytes
+//@fn Script::from_hex
 //@fn Script::read_pass
 //@fn Script::read_fail
 //@fn Script::read_if_statement
